@@ -194,6 +194,32 @@ func VerifC14Sparse() {
 	}
 }
 
+// VerifC14SparseWide: values wider than 32 bytes (the IR allows widths up to
+// 255 bytes): a wide write, optionally a later write over its first 32..36
+// bytes, then reads that start at byte offset >= 28 of the wide value.
+func VerifC14SparseWide() {
+	m := NewSparse()
+	ref := &vRefMem{}
+	env := irsem.NewMapEnv(128)
+	base := sym.SmallBase("base")
+	W := []expr.Width{33, 40, 64}[sym.Choose(3)]
+	c := expr.NewConst(sym.Bytes("wide", int(W)), W)
+	sym.NoPanic(func() { m.Store(model.Addr(base), c, W) })
+	ref.write(base, int(W), irsem.ConstBV(c))
+	if sym.Choose(2) == 1 {
+		pw := []expr.Width{32, 33, 36}[sym.Choose(3)]
+		if pw < W {
+			c2 := expr.NewConst(sym.Bytes("prefix", int(pw)), pw)
+			sym.NoPanic(func() { m.Store(model.Addr(base), c2, pw) })
+			ref.write(base, int(pw), irsem.ConstBV(c2))
+			sym.Reach("wide-prefix-rewritten")
+		}
+	}
+	off := 28 + sym.Choose(int(W)-28)
+	w := []expr.Width{1, 2, 4}[sym.Choose(3)]
+	vCheckRead("sparse-wide", m, ref, env, base+uint64(off), w)
+}
+
 // ---- C15
 
 type vBlock struct {
